@@ -235,9 +235,9 @@ def jobs_c09(tier, seed):
 
 C07_QUICK = ["csi_k1_s0", "csi_k2_s0", "csi_k2_s1", "csi_k3_s0", "csi_k3_s1", "csi_k3_s2", "csi_k3_s3",
              "csi_k4_s0", "csi_k4_s1", "csi_k4_s2", "csi_k4_s3", "csi_k4_s4", "csi_k4_s5", "csi_k4_s6", "csi_k4_s7",
-             "csi_k5_s0", "csi_k5_s15"]
+             "csi_k5_s0", "csi_k5_s15", "csi_k10_s0"]
 C07_THOROUGH = ["csi_k5_s6", "csi_k5_s3", "csi_k5_s12", "csi_k5_s1", "csi_k6_s0", "csi_k6_s30", "csi_k6_s15",
-                "csi_k6_s27", "csi_k6_s1", "csi_k7_s0", "csi_k8_s0"]
+                "csi_k6_s27", "csi_k6_s1", "csi_k7_s0", "csi_k8_s0", "csi_k10_s495", "csi_k11_s0"]
 
 
 def jobs_c06(tier, seed):
@@ -313,6 +313,7 @@ def jobs_c19(tier, seed):
             jobs.append(J(f"c19::lock_once_{wrap}_{k}", features=f, timeout_s=3600 if heavy else 1800, mem_gb=24 if heavy else 16,
                           bound=f"{what} over a lock-counting probe stream: one {k} call with a symbolic <=2-byte payload (write_fmt: two 1-byte fragments)"))
     jobs.append(J("c19::global_choice_register", features=f, timeout_s=600, bound="ColorChoice::write_global / global: any two writes (sequential)"))
+    jobs.append(J("c19::std_streams_hand_out_std_locks", features=f, timeout_s=600, min_covers=1, bound="stdout / stderr: as_locked_write returns std's StdoutLock / StderrLock (concrete)"))
     return jobs
 
 
@@ -334,7 +335,8 @@ def jobs_c07(tier, seed):
         names += [e for e in extra if e not in names]
     # some shapes have no well-formed reading at all (e.g. four values joined by ':'): the
     # "style changed" witnesses are then unsatisfiable by design; one reached witness suffices
-    jobs = [J(f"c07::harness::{n}", features=f, timeout_s=1200, bound=shape(n), all_covers=False, min_covers=1) for n in names]
+    jobs = [J(f"c07::harness::{n}", features=f, timeout_s=1200 if int(n[5:].split("_s")[0]) < 8 else 3600, mem_gb=12 if int(n[5:].split("_s")[0]) < 8 else 20,
+              bound=shape(n), all_covers=False, min_covers=1) for n in names]
     jobs.append(J("c07::harness::combined_equals_separate_2", features=f, timeout_s=1200, bound="a;b vs a then b: all pairs of single-parameter codes (free u16 x free u16), any prior style"))
     jobs.append(J("c07::harness::non_sgr_changes_nothing", features=f, timeout_s=1200, bound="any final byte other than m, or ignore flag set; ESC/OSC/DCS callbacks; any prior style"))
     return jobs
@@ -502,7 +504,7 @@ REGISTRY = {
         "jobs": jobs_c07,
         "level": "model_checking",
         "functions": ["anstream::adapter::wincon::WinconCapture::{csi_dispatch,esc_dispatch,osc_dispatch,hook,put,unhook} (source file include!d from the working tree)", "anstream::adapter::wincon::to_ansi_color", "anstyle_parse::Params::iter"],
-        "bounds": {"quick": "every single SGR sequence of <=4 parameter values in every ';'/':' shape (15 shapes) plus the 5-value ';' and ':' shapes, every value a free u16, from every prior style; combined-vs-separate for all code pairs", "thorough": "28 shapes up to 8 values (all extended-colour forms next to other attributes)"},
+        "bounds": {"quick": "every single SGR sequence of <=4 parameter values in every ';'/':' shape (15 shapes) plus the 5-value ';' and ':' shapes and the 10-value ';' shape (two RGB colours), every value a free u16, from every prior style; combined-vs-separate for all code pairs", "thorough": "31 shapes up to 11 values (all extended-colour forms next to other attributes, two RGB colours in one sequence)"},
         "outside": "sequences with more parameter values than the shapes listed; codes the property is silent about (5, 6, 22-29, 59: no assertion); extended colours with missing / out-of-range operands (ill-formed: no assertion); an underline code applied while a different underline kind is in effect (the flag view of the style type and the one-kind terminal view disagree about the result: no assertion); run emission across calls is covered by the run harnesses",
         "assumptions": ["reference interpreter vmodels::sgr with dialect EXTRACT", "parameter lists are built through the verification hook Params::verif_from_parts"],
     },
